@@ -602,10 +602,10 @@ Definition read_monomial (st : settings) (toks : list text) : result :=
               | None => ParseError end
   end.
 
-(* mps_chebyshev_poly_read_from_stream: no mpq_canonicalize, no repeated-index check *)
+(* mps_chebyshev_poly_read_from_stream: like the monomial reader, but no repeated-index check *)
 Definition read_chebyshev (st : settings) (toks : list text) : result :=
   let n1 := S (Z.to_nat (s_n st)) in
-  let rd := read_cplx (is_fp (s_struct st)) false (is_complex (s_struct st)) in
+  let rd := read_cplx (is_fp (s_struct st)) true (is_complex (s_struct st)) in
   match s_density st with
   | Dense => match read_dense rd n1 toks with
              | Some (cs, _) => Poly (mk_poly st [] cs [])
